@@ -67,6 +67,12 @@ func (q rangeQuery) Run() queryResult {
 
 	var ranges MetricTimeRanges
 	ranges, qr.stats, qr.err = streamSampleStream(resp.Body, q.r.Step)
+	if qr.err != nil && ctx.Err() != nil {
+		// The response was cut short because this slice was cancelled (another slice of the same
+		// query failed) or timed out: report that, not the parse error it caused.
+		qr.err = ctx.Err()
+		return qr
+	}
 	ExpandRangesEnd(ranges, q.r.Step)
 	qr.value = ranges
 	return qr
